@@ -940,6 +940,11 @@ func c03Token(mr *miniredis.Miniredis, store *redis.Redis, cfg verifh.Cfg) (func
 		}
 	}
 	recoverAll := func() string {
+		// the monitors can only come back if Redis.Ping() recognises the server's PONG: check that first instead of
+		// waiting for goroutines that can never succeed
+		if v, err := c03Raw.Ping(context.Background()).Result(); err == nil && v == "PONG" && !store.Ping() {
+			return "PINGBROKEN raw=PONG ping=0"
+		}
 		t0 := time.Now()
 		bound := 20 * time.Second
 		if c03Timeouts.Load() > 0 {
